@@ -10,7 +10,7 @@ cd "$wt" || exit 2
 git checkout -q --detach "$(git -C /repo rev-parse HEAD)" 2>/dev/null
 git checkout -- . ; git clean -fdq -e target
 export CARGO_NET_OFFLINE=true
-demo_cmd=$(python3 -c "import json,sys; print(json.load(open('$sd/meta.json'))['demo_cmd'])" | sed -E "s#cd /tmp/brk-[a-z0-9]+ *&& *##; s#/tmp/brk-[a-z0-9]+#$wt#g")
+demo_cmd=$(python3 -c "import json,sys; print(json.load(open('$sd/meta.json'))['demo_cmd'])" | sed -E "s#cd /tmp/brk[0-9]*-[a-z0-9]+ *&& *##; s#/tmp/brk[0-9]*-[a-z0-9]+#$wt#g")
 res="$sd/verified.txt"; : > "$res"
 echo "head: $(git rev-parse --short HEAD)" >> "$res"
 echo "demo_cmd: $demo_cmd" >> "$res"
